@@ -45,7 +45,13 @@ func newCacheJanitor[MetadataT any](cfg *config.Config, interval time.Duration, 
 
 	j.subs.Add(cfg.Cache.CleanupInterval.OnChange(func(newInterval duration.Duration) {
 		slog.Info("Cache cleanup interval changed", "new_interval", newInterval)
-		j.intervalChanged <- newInterval.Cast()
+		// Only a wake-up: the cleanup task reads the interval that is configured when it gets to it.
+		// One pending wake-up is enough, so never wait here: a handler that blocks on the channel
+		// stays behind for ever once the task has ended (context cancelled, or stopped meanwhile).
+		select {
+		case j.intervalChanged <- newInterval.Cast():
+		default:
+		}
 	}))
 
 	return j
